@@ -27,7 +27,10 @@ package test
 
 //@ func (conn *bridgeConn) SetReadDeadline(t time.Time) (err error)
 //@   requires conn.readDeadline != nil
-//@   modifies lastUntil
+//@   modifies lastUntil, dlSetN, dlSetObj, dlSetTo
+//@   ensures [forward] (exists k mathint :: old(dlSetN) <= k && k < dlSetN && dlSetObj[k] == ref(conn.readDeadline) && dlSetTo[k] == t) &&
+//@            (forall k mathint :: {dlSetTo[k]} old(dlSetN) <= k && k < dlSetN ==> dlSetTo[k] == t)
+//@   ensures [keep] dlSetN > old(dlSetN) && (forall k mathint :: {dlSetTo[k]} k < old(dlSetN) ==> dlSetTo[k] == old(dlSetTo[k]) && dlSetObj[k] == old(dlSetObj[k]))
 //@   ensures [nil] err == nil
 
 // ---- Bridge (C18): queues and reorder stacks are sequences of messages (slices); reference semantics per operation.
